@@ -742,8 +742,9 @@ theorem custom_ids {ncols : Nat} {rows : List (List α)} {ps : List CParam}
   intro m
   by_cases hm : m < rs.length
   · obtain ⟨a, _, hrm⟩ := hall m rows[m] (List.getElem?_eq_getElem (hlen ▸ hm))
-    simp [hrm, hm]
-  · simp [List.getElem?_eq_none (Nat.le_of_not_lt hm), hm]
+    rw [List.getElem?_eq_getElem hm, Option.some.injEq] at hrm
+    simp [hm, hrm]
+  · simp [hm]
 
 theorem lookup_by_id_custom {δ : Type} (f : CRun (CVal α) → δ) {ncols : Nat} {rows : List (List α)}
     {ps : List CParam} {rs : List (CRun (CVal α))} (h : customRuns ncols rows ps = .ok rs)
